@@ -167,19 +167,14 @@ class FeatureIDEReader(TextToModel):
             node.right.right = self._parse_rule(rule[0]).root
 
         elif rule.tag == FeatureIDEReader.TAG_DISJ:
-            if len(rule) > 1:
-                node = Node(ASTOperation.OR)
-                node.left = self._parse_rule(rule[0]).root
-                node.right = self._parse_rule(rule[1]).root
-
-            else:
-                node = self._parse_rule(rule[0]).root
+            node = self._parse_rule(rule[0]).root
+            for operand in rule[1:]:  # n-ary: fold every operand, left to right
+                node = Node(ASTOperation.OR, node, self._parse_rule(operand).root)
 
         elif rule.tag == FeatureIDEReader.TAG_CONJ:
-            if len(rule) > 1:
-                node = Node(ASTOperation.AND)
-                node.left = self._parse_rule(rule[0]).root
-                node.right = self._parse_rule(rule[1]).root
-            else:
-                node = self._parse_rule(rule[0]).root
+            node = self._parse_rule(rule[0]).root
+            for operand in rule[1:]:
+                node = Node(ASTOperation.AND, node, self._parse_rule(operand).root)
+        else:
+            raise FlamaException(f"Unsupported rule element in FeatureIDE model: {rule.tag}")
         return AST(node)
